@@ -230,8 +230,10 @@ class Marginal(Generic[R], SampleDistribution):
         else:
             target = Target(self.gen_fn, args, latent_choices)
             other_choices = choices.filter(~self.selection)
+            # the conditional run reweights the retained particle like every other one:
+            # it needs the particle's full score under the new target
             Z = self.algorithm.estimate_reciprocal_normalizing_constant(
-                key, target, other_choices, weight
+                key, target, other_choices, tr.get_score()
             )
 
             return (Z, latent_choices)
